@@ -1,2 +1,4 @@
 -- Root of the `Discv5Model` library: models, helper proofs and property theorems.
 import Discv5Model.Props.C05
+import Discv5Model.Props.C15
+import Discv5Model.Props.C17
